@@ -1,5 +1,6 @@
 """C16 — peak and background models satisfy their analytic definitions."""
 import math
+import os
 import random
 from fractions import Fraction
 
@@ -70,6 +71,38 @@ PREFIXES = ['', '', 'p_', 'peak1_', 'g', 'a', 'bkg.', 'L ', 'x-y_', '_', 'amplit
 NASTY = ['p', 'a', 'l', 'sc', 'e', 'loc', 'amp', 'frac', '0', '1', 'a1', 'scale']
 ZS = [0.0, 0.5, -0.5, 1.0, -1.0, 2.5, -2.5, 6.0, -6.0, 12.0, -12.0, 30.0, -30.0, 0.1, -1.7, 3.3]
 TOL = '(1 # 1000000000000)'
+# x arrays reaching from the peak into the far tails (in widths; the leaf scales are 0.1..10 widths, so
+# |x - loc| / scale goes up to 1e4): two points near the peak, one on the flank, three in the far tails
+Z_NEAR = [0.0, 0.5, -0.5, 1.0, -1.0, 2.5, -2.5, 0.1, -1.7, 3.3]
+Z_MID = [6.0, -6.0, 12.0, -12.0, 30.0, -30.0]
+Z_FAR = [41.0, 60.0, 300.0, 1000.0]
+# layouts of the x array: the order of a 1-d array (ascending / descending / unordered), 2-d (row-major and
+# as a transposed, non-contiguous view), 0-d
+WIDE_LAYOUTS = ['asc', 'desc', 'shuf', '2d', '2dT']
+
+
+def wide_zs(rng):
+    far = [-rng.choice(Z_FAR), rng.choice(Z_FAR), sgn(rng) * rng.choice(Z_FAR)]
+    return rng.sample(Z_NEAR, 2) + [rng.choice(Z_MID)] + far
+
+
+def layout_x(xs, unit, dtype, layout, rng):
+    """the values xs as an x variable in the given layout -> (VAR spec, idx) with idx[i] = index in xs of
+    the element at (row-major) position i of the variable"""
+    n = len(xs)
+    idx = list(range(n))
+    if layout in ('asc', 'desc'):
+        idx.sort(key=lambda i: xs[i], reverse=(layout == 'desc'))
+    elif layout in ('shuf', '2d', '2dT'):
+        rng.shuffle(idx)
+    v = var([xs[i] for i in idx], unit, dtype, 'x')
+    if layout == '0d':
+        v = var(xs[:1], unit, dtype, None)
+        idx = [0]
+    elif layout in ('2d', '2dT'):
+        rows = 2 if n % 2 == 0 else (3 if n % 3 == 0 else 1)
+        v = dict(v, dim=None, dims=['r', 'c'], shape=[rows, n // rows], transposed=(layout == '2dT'))
+    return v, idx
 
 
 def hexf(x):
@@ -217,14 +250,20 @@ def gen_groups(rng, n):
     # ... and every observation on every kind of model after a chain of re-prefixings that starts from a
     # constructor prefix occurring inside a bare parameter name
     battery2 = [(k, w) for k in ('gauss', 'lorentz', 'pvoigt', 'poly', 'comp') for w in ('names', 'bounds', 'guess', 'call', 'fwhm')]
-    for gi in range(n + len(battery) + len(battery2)):
+    # ... and every kind of model on every layout of an x array that reaches from the peak into both far tails
+    battery3 = [(k, lay) for k in ('gauss', 'lorentz', 'pvoigt', 'poly', 'comp') for lay in WIDE_LAYOUTS + ['0d']]
+    nb12 = len(battery) + len(battery2)
+    for gi in range(n + nb12 + len(battery3)):
         r = rng.random()
         forced = battery[gi] if gi < len(battery) else None
-        forced2 = battery2[gi - len(battery)] if len(battery) <= gi < len(battery) + len(battery2) else None
+        forced2 = battery2[gi - len(battery)] if len(battery) <= gi < nb12 else None
+        forced3 = battery3[gi - nb12] if nb12 <= gi < nb12 + len(battery3) else None
         if forced:
             r = 0.9
         if forced2:
             r = 0.5
+        if forced3:
+            r = 0.6 if forced3[0] != 'comp' else 0.2
         ux, uy = rng.choice(XUNITS), rng.choice(YUNITS)
         xdt = rng.choice(['float64', 'float64', 'float64', 'float32', 'int64'])
         # integer x: widths >= 10 so that rounding x to integers keeps |x - loc| / scale moderate (the exact
@@ -256,6 +295,10 @@ def gen_groups(rng, n):
             m = gen_leaf(rng, forced2[0], nasty=True) if forced2[0] != 'comp' else \
                 gen_comp(rng, gen_leaf(rng, 'poly', 'b_', nasty=True),
                          gen_leaf(rng, rng.choice(['gauss', 'lorentz', 'pvoigt']), 'p_', nasty=True), nasty=True)
+        if forced3:
+            m = gen_leaf(rng, forced3[0]) if forced3[0] != 'comp' else \
+                gen_comp(rng, gen_leaf(rng, rng.choice(['poly', 'lorentz']), 'b_'),
+                         gen_leaf(rng, rng.choice(['gauss', 'pvoigt']), 'p_'))
         if mutate == 'overlap':
             p = rng.choice(PREFIXES)
             k = rng.choice(['gauss', 'lorentz', 'pvoigt'])
@@ -278,11 +321,23 @@ def gen_groups(rng, n):
                            'y': var(ys, [[uy, 1]], 'float64', 'x'), 'info': [], 'mutate': None})
             continue
         params, info = gen_params(rng, m, ux, uy, center, width)
-        zs = rng.sample(ZS, 4 if n <= 200 else 6)
+        # layout of x: a short unordered 1-d sample within 30 widths (most groups), or an array in one of the
+        # WIDE_LAYOUTS / a 0-d x reaching into the far tails
+        xl = 'sample'
+        if forced3:
+            xl = forced3[1]
+        elif what == 'call' and mutate is None and rng.random() < 0.3:
+            xl = rng.choice(WIDE_LAYOUTS + ['0d'])
+        if xl == 'sample':
+            zs = rng.sample(ZS, 4 if n <= 200 else 6)
+        elif xl == '0d':
+            zs = [rng.choice(Z_NEAR + Z_MID + Z_FAR + [-z for z in Z_FAR])]
+        else:
+            zs = wide_zs(rng)
         xs = [center + z * width for z in zs]
         if xdt == 'int64':
             xs = [float(max(-2 ** 40, min(2 ** 40, round(v)))) for v in xs]
-        x = var(xs, [[ux, 1]], xdt, 'x')
+        x, _ = layout_x(xs, [[ux, 1]], xdt, 'given' if xl == 'sample' else xl, rng)
         names = list(params)
         if mutate == 'missing':
             del params[rng.choice(names)]
@@ -312,7 +367,8 @@ def gen_groups(rng, n):
             if rng.random() < 0.3:
                 params['unrelated'] = var([2.0], [])
             x = None
-        groups.append({'id': gi, 'what': what, 'model': m, 'params': params, 'x': x, 'info': info, 'mutate': mutate})
+        groups.append({'id': gi, 'what': what, 'model': m, 'params': params, 'x': x, 'info': info, 'mutate': mutate,
+                       'xlayout': xl if what == 'call' else None})
     return groups
 
 
@@ -346,6 +402,8 @@ def cases_of(g, r):
     """-> list of (coq term, description)"""
     mt = model_term(g['model'])
     desc0 = {'what': g['what'], 'model': g['model'], 'mutate': g['mutate']}
+    if g.get('xlayout'):
+        desc0['x_layout'] = g['xlayout']
     if g['what'] == 'construct':
         cls = r.get('construct_error', 'ok')
         return [(f'(mkp "construct" {mt} [] {DUMMY} (OutErr {cstr(cls)}) {TOL} (0 # 1))', dict(desc0, impl=cls))]
@@ -392,8 +450,11 @@ def cases_of(g, r):
 
 
 HEADER = ('From Coq Require Import QArith ZArith String List.\n'
-          'From Verif.Sem Require Import Field Val QInst Corr.\nFrom Verif.C16 Require Import SemExt Model.\n'
+          'From Verif.Sem Require Import Field Val QInst Corr.\nFrom Verif.C16 Require Import SemExt Model CorrCore.\n'
           'From Run Require Import Corr.\nImport ListNotations.\nOpen Scope string_scope.\n')
+# fallback when model.py no longer translates / the regenerated module no longer compiles: the reference
+# translation of the pinned text (coq/C16/RefLeaf.v) takes the place of Run.GenModel
+HEADER_REF = HEADER.replace('From Run Require Import Corr.', 'From Verif.C16 Require Import RefCorr.')
 
 
 def strip(g):
@@ -407,9 +468,19 @@ def correspondence(ctx):
     res = ctx.run_impl('c16_impl.py', {'groups': [strip(g) for g in groups]})
     terms, descs = [], []
     mutated = 0
+    use_ref = not os.path.exists(os.path.join(ctx.build, 'Corr.vo'))
+    if use_ref:
+        ctx.note('the regenerated model is not available (translation / compilation broke): the correspondence '
+                 'compares the implementation with the reference translation coq/C16/RefLeaf.v')
     for g, r in zip(groups, res['groups']):
         if 'build_error' in r:
             ctx.note(f'harness could not build group {g["id"]}: {r["build_error"]}')
+            continue
+        if g['what'] == 'call' and 'result' in r and 'shape' in r['result'] and (
+                r['result']['shape'] != r['x']['shape'] or r['result']['dims'] != r['x']['dims']):
+            ctx.violation('call:shape', f'model(x) has dims {r["result"]["dims"]} shape {r["result"]["shape"]} but x has dims '
+                          f'{r["x"]["dims"]} shape {r["x"]["shape"]} ({g["model"]["kind"]}, x layout {g.get("xlayout")})',
+                          {'group': strip(g), 'result_dims': r['result']['dims'], 'result_shape': r['result']['shape']})
             continue
         if not r.get('inputs_unchanged', True):
             mutated += 1
@@ -423,24 +494,36 @@ def correspondence(ctx):
         for t, d in cases_of(g, r):
             terms.append(t)
             descs.append(dict(d, group=g['id']))
-    fails, errors = ctx.coq_eval_shards(HEADER, terms, lambda k: 'Eval vm_compute in (report (map check cases)).\n',
-                                        shard=max(20, -(-len(terms) // 16)))
+    # the cases of one group cost about the same (big composites, far tails: more): deal them out round-robin
+    # so that the 16 shards finish together
+    nsh = 16
+    shard = max(20, -(-len(terms) // nsh))
+    nsh = -(-len(terms) // shard)
+    order = [i for k in range(nsh) for i in range(k, len(terms), nsh)]
+    fails_p, errors = ctx.coq_eval_shards(HEADER_REF if use_ref else HEADER, [terms[i] for i in order],
+                                          lambda k: 'Eval vm_compute in (report (map check cases)).\n', shard=shard)
+    fails = {order[j]: why for j, why in fails_p.items()}
     for name, e in errors:
         ctx.violation('corr-shard-error', f'correspondence shard {name} did not evaluate: {e[:300]}',
                       {'shard': name, 'error': e}, found_input=False)
     by_id = {g['id']: g for g in groups}
+    against = ('the reference translation of the documented code (coq/C16/RefLeaf.v; the current model.py does not translate)'
+               if use_ref else 'the model regenerated from model.py')
     for i, why in sorted(fails.items()):
         d = descs[i]
         kind = d['model']['kind'] if d['model']['kind'] != 'comp' else 'composite'
         key = f'{d["what"]}:{kind}:{why.split(":")[0]}' + (f':{d["mutate"]}' if d['mutate'] else '')
-        ctx.violation(key, f'{d["what"]} on {kind}: implementation differs from the model regenerated from model.py ({why}) on {d}',
-                      {'case': d, 'reason': why, 'group': strip(by_id[d['group']])})
+        ctx.violation(key, f'{d["what"]} on {kind}: implementation differs from {against} ({why}) on {d}',
+                      {'case': d, 'reason': why, 'group': strip(by_id[d['group']]), 'against': 'RefLeaf.v' if use_ref else 'GenModel.v'})
     if mutated:
         ctx.violation('inputs-modified', f'{mutated} calls modified their arguments', {'count': mutated})
-    per = {}
+    per, per_layout = {}, {}
     for d in descs:
         k = d['what'] + ':' + d['model']['kind'] + (':' + d['mutate'] if d['mutate'] else '')
         per[k] = per.get(k, 0) + 1
+        if d.get('x_layout') and not isinstance(d['impl'], str):
+            k = d['x_layout'] + ':' + d['model']['kind']
+            per_layout[k] = per_layout.get(k, 0) + 1
     distinct = len({repr(d.get('params')) + repr(d.get('x')) + repr(d['model']) for d in descs if not isinstance(d['impl'], str)})
     ctx.coverage.update({
         'evaluations': len(terms),
@@ -448,11 +531,17 @@ def correspondence(ctx):
         'rule': 'element-wise cases from random models (4 leaf kinds, composites to depth 2, prefixes incl. spaces/quotes/clashing '
                 'names, built by constructor / with_prefix / +), amplitudes of either sign 1e-3..1e3, locations 0..1e6 widths away '
                 'from 0, scales 1e-6..1e6, fractions in [0,1] incl. 0 and 1, degree 1..6, x at 0..30 widths from the centre in '
-                'float64/float32/int64, 7 x units x 3 y units; 12% error cases (missing/extra/misprefixed parameter, unit and '
+                'float64/float32/int64, 7 x units x 3 y units; x as a short unordered 1-d sample, or (30% of the calls + a fixed '
+                'battery of every model kind x layout) as an array reaching from the peak to 41..1000 widths into BOTH tails '
+                '(|x - loc| / scale up to 1e4) in ascending / descending / shuffled 1-d order, 2-d row-major, 2-d transposed '
+                '(non-contiguous view) or 0-d: every element is compared with the scalar model at that x; result dims/shape '
+                '= those of x; 12% error cases (missing/extra/misprefixed parameter, unit and '
                 'dimension mismatches, overlapping names, degree <= 0), 8% fwhm calls; non-trivial = the implementation returned a '
                 'value; distinct = distinct (model, params, x)',
         'samples': descs[:3] + descs[-2:],
         'per_kind': per,
+        'per_x_layout': per_layout,
+        'compared_with': 'coq/C16/RefLeaf.v (reference translation; regenerated model unavailable)' if use_ref else 'Run.GenModel (regenerated on this run)',
         'disagreements': len(fails),
         'scipp_version': res.get('scipp'),
     })
@@ -485,11 +574,30 @@ def leggauss(n):
     return xs, ws
 
 
+def peak_value(kind, A, mu, s, f, xv):
+    """the analytic definition (python floats)"""
+    if kind == 'gauss':
+        return gauss(A, mu, s, xv)
+    if kind == 'lorentz':
+        return lorentz(A, mu, s, xv)
+    return f * lorentz(A, mu, s, xv) + (1 - f) * gauss(A, mu, s / math.sqrt(2 * math.log(2)), xv)
+
+
+SEARCH_LAYOUTS = ['given', 'asc', 'desc', 'shuf', '2d', '2dT']
+LAYOUT_TEXT = {'given': '1-d x in the order listed', 'asc': 'ascending 1-d x', 'desc': 'descending 1-d x',
+               'shuf': 'shuffled 1-d x', '2d': '2-d x', '2dT': '2-d transposed (non-contiguous) x', '0d': '0-d x'}
+
+
 def search(ctx, broken):
-    """An obligation broke.  Evaluate the PROPERTY STATEMENT itself on the implementation: closed forms
-    (python floats), symmetry, half maximum with the FWHM the model reports, normalisation by Gauss-Legendre
-    quadrature (tan substitution, so the Lorentzian tails are included), polynomial = sum a_i x^i in exact
-    rationals, composite = sum of parts, prefix independence, refusal of wrong parameter sets, result unit."""
+    """An obligation broke (a proof on the regenerated terms, the translation itself, or the exercise tie:
+    `exercise:<file>:<function>` = a new statement no harness process executed).  Evaluate the PROPERTY STATEMENT
+    itself on the implementation, for every model on x ARRAYS in every layout (order listed / ascending /
+    descending / shuffled 1-d, 2-d, 2-d transposed) that reach from the peak to 1e3 scale into both tails:
+    closed forms (python floats) and agreement of every element with the 0-d evaluation at that x (order
+    independence), symmetry (also on the mirrored = descending grid), half maximum with the FWHM the model
+    reports, normalisation by Gauss-Legendre quadrature (tan substitution, so the Lorentzian tails are included;
+    nodes handed over ascending, descending and shuffled), polynomial = sum a_i x^i in exact rationals,
+    composite = sum of parts, prefix independence, refusal of wrong parameter sets, result unit and shape."""
     rng = random.Random(ctx.seed + 16)
     found = []
 
@@ -524,82 +632,140 @@ def search(ctx, broken):
     # 1. the fwhm each model reports
     rfs = ctx.run_impl('c16_impl.py', {'groups': [{'id': i, 'what': 'fwhm', 'model': t[8], 'params': t[9], 'x': None}
                                                    for i, t in enumerate(trials)]})['groups']
-    calls = []
-    for t, rf in zip(trials, rfs):
+    # 2. per trial: the 18 probe points (peak, +-d, +-fwhm/2, far tails) in every layout and one by one as 0-d x;
+    #    the quadrature nodes ascending, descending (= the mirrored grid) and shuffled
+    calls, plan = [], []
+    for ti, (t, rf) in enumerate(zip(trials, rfs)):
         kind, ux, uy, s, mu, A, f, p, m, params = t
         if 'result' not in rf:
             viol(f'{kind}:fwhm-raises', f'{kind}.fwhm raises {rf.get("error")}', {'group': {'model': m, 'params': params, 'what': 'fwhm'}})
-            calls.append(None)
+            plan.append(None)
             continue
         w = _val(rf)
         ds = [0.5 * s, 1.0 * s, 2.0 * s, 4.0 * s]
-        # quadrature points: x = mu + s tan(theta), theta in 32 panels over (-th, th)
-        xs = [mu] + [mu + d for d in ds] + [mu - d for d in ds] + [mu + w / 2, mu - w / 2] + [mu + s * math.tan(tt) for tt in thetas]
-        calls.append({'id': len(calls), 'what': 'call', 'model': m, 'params': params, 'x': var(xs, [[ux, 1]], 'float64', 'x'),
-                      'w': w, 'ds': ds})
-    rcs = ctx.run_impl('c16_impl.py', {'groups': [strip(c) for c in calls if c is not None]})['groups']
-    rcs = iter(rcs)
-    for t, g in zip(trials, calls):
-        if g is None:
+        far = [45.0, 300.0, 1000.0]
+        probe = ([mu] + [mu + d for d in ds] + [mu - d for d in ds] + [mu + w / 2, mu - w / 2]
+                 + [mu + z * s for z in far] + [mu - z * s for z in far] + [mu + 100.0 * s])
+        quad = [mu + s * math.tan(tt) for tt in thetas]
+        ent = {'w': w, 'ds': ds, 'probe': probe, 'lay': {}, 'scalar': [], 'quad': {}}
+        for lay in SEARCH_LAYOUTS:
+            xv, idx = layout_x(probe, [[ux, 1]], 'float64', lay, rng)
+            ent['lay'][lay] = (len(calls), idx)
+            calls.append({'id': len(calls), 'what': 'call', 'model': m, 'params': params, 'x': xv})
+        for xv in probe:
+            ent['scalar'].append(len(calls))
+            calls.append({'id': len(calls), 'what': 'call', 'model': m, 'params': params, 'x': var([xv], [[ux, 1]], 'float64', None)})
+        for lay in ('asc', 'desc', 'shuf'):
+            xv, idx = layout_x(quad, [[ux, 1]], 'float64', lay, rng)
+            ent['quad'][lay] = (len(calls), idx)
+            calls.append({'id': len(calls), 'what': 'call', 'model': m, 'params': params, 'x': xv})
+        plan.append(ent)
+    rcs = ctx.run_impl('c16_impl.py', {'groups': [strip(c) for c in calls]})['groups']
+
+    def values(ci, idx, n):
+        """result of call ci put back into the order of the list the x was built from; None if it raised"""
+        r = rcs[ci]
+        if 'result' not in r or 'values' not in r['result'] or len(r['result']['values']) != len(idx):
+            return None
+        out = [None] * n
+        for pos, i in enumerate(idx):
+            out[i] = _val(r, pos)
+        return out
+
+    for t, ent in zip(trials, plan):
+        if ent is None:
             continue
-        r = next(rcs)
         kind, ux, uy, s, mu, A, f, p, m, params = t
-        w, ds = g['w'], g['ds']
-        g = strip(g)
-        g['x'] = dict(g['x'], values=g['x']['values'][:11])     # the replay keeps the 11 probe points
-        if 'result' not in r:
-            viol(f'{kind}:call-raises', f'{kind} raises {r.get("error")} on valid parameters', {'group': g, 'error': r.get('error_text')})
-            continue
-        n_x = len(r['x']['values'])
-        vals = [_val(r, k) for k in range(n_x)]
-        xst = [kcorr.fmt(v) for v in r['x']['values']]
-        peak = vals[0]
-        # closed form
-        for k, xv in enumerate(xst[:11]):
-            want = {'gauss': gauss(A, mu, s, xv), 'lorentz': lorentz(A, mu, s, xv),
-                    'pvoigt': f * lorentz(A, mu, s, xv) + (1 - f) * gauss(A, mu, s / math.sqrt(2 * math.log(2)), xv)}[kind]
-            if not abs(vals[k] - want) <= 1e-9 * abs(want) + 1e-300:
-                viol(f'{kind}:closed-form', f'{kind}(x={xv}) = {vals[k]} but the definition gives {want} (A={A}, loc={mu}, scale={s}, fraction={f})',
-                     {'group': g, 'x': xv, 'impl': vals[k], 'definition': want})
-                break
-        # symmetry
-        for j in range(4):
-            a, b = vals[1 + j], vals[5 + j]
-            if not abs(a - b) <= 1e-9 * abs(a):
-                viol(f'{kind}:symmetry', f'{kind}: f(loc+d) = {a} != f(loc-d) = {b} for d = {ds[j]}', {'group': g, 'd': ds[j], 'plus': a, 'minus': b})
-                break
-        # half maximum with the reported FWHM
-        for k in (9, 10):
-            if not abs(vals[k] - peak / 2) <= 1e-7 * abs(peak):
-                viol(f'{kind}:half-max', f'{kind}: f(loc +- fwhm/2) = {vals[k]} but f(loc)/2 = {peak / 2} with the reported fwhm = {w} (scale = {s}'
-                     + (f', fraction = {f})' if kind == 'pvoigt' else ')'),
-                     {'group': g, 'fwhm': w, 'value_at_half_width': vals[k], 'half_peak': peak / 2})
-                break
-        # normalisation: int f dx = int f(mu + s tan t) s / cos^2 t dt
-        integral = sum(wt * v * s / math.cos(t) ** 2 for wt, v, t in zip(wts, vals[11:], thetas))
+        w, ds, probe = ent['w'], ent['ds'], ent['probe']
+        ptxt = f'A={A}, loc={mu}, scale={s}' + (f', fraction={f}' if kind == 'pvoigt' else '')
+        scal = []
+        for ci in ent['scalar']:
+            scal.append(_val(rcs[ci]) if 'result' in rcs[ci] else None)
+        for lay in SEARCH_LAYOUTS:
+            ci, idx = ent['lay'][lay]
+            g = strip(calls[ci])
+            r = rcs[ci]
+            ltxt = LAYOUT_TEXT[lay]
+            if 'result' not in r:
+                viol(f'{kind}:call-raises', f'{kind} raises {r.get("error")} on valid parameters ({ltxt})',
+                     {'group': g, 'error': r.get('error_text'), 'x_layout': lay})
+                continue
+            if r['result'].get('shape') != r['x']['shape'] or r['result'].get('dims') != r['x']['dims']:
+                viol(f'{kind}:shape', f'{kind}: result dims {r["result"].get("dims")} shape {r["result"].get("shape")} differ from '
+                     f'those of x ({r["x"]["dims"]}, {r["x"]["shape"]}; {ltxt})', {'group': g, 'x_layout': lay})
+                continue
+            vals = values(ci, idx, len(probe))
+            xst = probe          # float64 x: stored exactly as generated
+            peak = vals[0]
+            # closed form, and the same value as the 0-d evaluation at that x
+            for k, xv in enumerate(xst):
+                want = peak_value(kind, A, mu, s, f, xv)
+                if not abs(vals[k] - want) <= 1e-9 * abs(want) + 1e-300:
+                    viol(f'{kind}:closed-form', f'{kind}(x={xv}) = {vals[k]} as an element of a {ltxt}, but the definition gives {want} ({ptxt})',
+                         {'group': g, 'x': xv, 'impl': vals[k], 'definition': want, 'x_layout': lay})
+                    break
+                if scal[k] is not None and not abs(vals[k] - scal[k]) <= 1e-12 * abs(scal[k]) + 1e-300:
+                    viol(f'{kind}:order-dependent', f'{kind}(x={xv}) = {vals[k]} as an element of a {ltxt}, but {scal[k]} when evaluated '
+                         f'alone as a 0-d x ({ptxt})', {'group': g, 'x': xv, 'in_array': vals[k], 'alone': scal[k], 'x_layout': lay})
+                    break
+            # symmetry
+            pairs = [(1 + j, 5 + j, ds[j]) for j in range(4)] + [(11 + j, 14 + j, [45.0, 300.0, 1000.0][j] * s) for j in range(3)]
+            for ia, ib, d in pairs:
+                a, b = vals[ia], vals[ib]
+                if not abs(a - b) <= 1e-9 * abs(a) + 1e-300:
+                    viol(f'{kind}:symmetry', f'{kind}: f(loc+d) = {a} != f(loc-d) = {b} for d = {d} ({ltxt}; {ptxt})',
+                         {'group': g, 'd': d, 'plus': a, 'minus': b, 'x_layout': lay})
+                    break
+            # half maximum with the reported FWHM
+            for k in (9, 10):
+                if not abs(vals[k] - peak / 2) <= 1e-7 * abs(peak) or peak == 0.0:
+                    viol(f'{kind}:half-max', f'{kind}: f(loc +- fwhm/2) = {vals[k]} but f(loc)/2 = {peak / 2} with the reported fwhm = {w} '
+                         f'({ltxt}; {ptxt})', {'group': g, 'fwhm': w, 'value_at_half_width': vals[k], 'half_peak': peak / 2, 'x_layout': lay})
+                    break
+            # unit
+            un = r['result']['unit']
+            amp_u = r['params'][p + 'amplitude']['unit']
+            x_u = r['x']['unit']
+            if un['dims'] != [a - b for a, b in zip(amp_u['dims'], x_u['dims'])]:
+                viol(f'{kind}:unit', f'{kind} result unit {un["name"]} is not unit(amplitude)/unit(x)', {'group': g, 'unit': un})
+        # normalisation: int f dx = int f(mu + s tan t) s / cos^2 t dt, the nodes in three orders
         frac_l = {'gauss': 0.0, 'lorentz': 1.0, 'pvoigt': f}[kind]
         want = A * (frac_l * 2 * th / math.pi + (1 - frac_l))
-        if not abs(integral - want) <= 1e-6 * abs(A):
-            viol(f'{kind}:normalisation', f'{kind} integrates to {integral} instead of its amplitude (expected {want} on the sampled range; A = {A})',
-                 {'group': {k2: g[k2] for k2 in ("model", "params")}, 'integral': integral, 'expected': want, 'amplitude': A})
-        # unit
-        un = r['result']['unit']
-        amp_u = r['params'][p + 'amplitude']['unit']
-        x_u = r['x']['unit']
-        if un['dims'] != [a - b for a, b in zip(amp_u['dims'], x_u['dims'])]:
-            viol(f'{kind}:unit', f'{kind} result unit {un["name"]} is not unit(amplitude)/unit(x)', {'group': g, 'unit': un})
-    # polynomial, composite, prefix, bad params
+        for lay in ('asc', 'desc', 'shuf'):
+            ci, idx = ent['quad'][lay]
+            vals = values(ci, idx, len(thetas))
+            gq = {'model': m, 'params': params, 'what': 'call',
+                  'x': dict(calls[ci]['x'], values=calls[ci]['x']['values'][:3] + calls[ci]['x']['values'][-3:])}
+            if vals is None:
+                viol(f'{kind}:call-raises', f'{kind} raises {rcs[ci].get("error")} on the quadrature grid ({LAYOUT_TEXT[lay]})',
+                     {'group': gq, 'x_layout': lay})
+                continue
+            integral = sum(wt * v * s / math.cos(tq) ** 2 for wt, v, tq in zip(wts, vals, thetas))
+            if not abs(integral - want) <= 1e-6 * abs(A):
+                viol(f'{kind}:normalisation', f'{kind} integrates to {integral} instead of its amplitude (expected {want} on the sampled range; '
+                     f'A = {A}; 1536 Gauss-Legendre nodes x = loc + scale tan(theta) handed over as a {LAYOUT_TEXT[lay]}; the replay keeps '
+                     f'the first and last three nodes)',
+                     {'group': gq, 'integral': integral, 'expected': want, 'amplitude': A, 'x_layout': lay,
+                      'grid': 'x = loc + scale*tan(theta), theta = 48-point Gauss-Legendre nodes in 32 panels of (-pi/2+1e-3, pi/2-1e-3)'})
+    # polynomial, composite (polynomial + peak), prefix, bad params; x: a few points near 0 and far-tail points
+    # of the peak, in a layout that changes from trial to trial
     for trial in range(12):
         deg = 1 + trial % 6
+        lay = (SEARCH_LAYOUTS + ['0d'])[(trial * 5 + 2) % 7] if trial < 7 else rng.choice(SEARCH_LAYOUTS)
         ux, uy = rng.choice(XUNITS), rng.choice(YUNITS)
         cs = [float(rng.randint(-9, 9)) / 4 for _ in range(deg + 1)]
-        xs = [float(rng.randint(-12, 12)) / 8 for _ in range(5)]
+        xs = [float(rng.randint(-12, 12)) / 8 for _ in range(4)] + [0.25 + 0.5 * z for z in (45.0, -60.0, 1000.0, -300.0)]
         p = rng.choice(PREFIXES)
         m = {'kind': 'poly', 'degree': deg, 'prefix': p, 'ctor': p, 'chain': []}
         params = {f'{p}a{i}': var([c], [[uy, 1], [ux, -i]]) for i, c in enumerate(cs)}
-        g = {'id': 0, 'what': 'call', 'model': m, 'params': params, 'x': var(xs, [[ux, 1]], 'float64', 'x')}
-        pg = {'kind': 'gauss', 'prefix': 'g_', 'ctor': 'g_', 'chain': []}
+        X, idx = layout_x(xs, [[ux, 1]], 'float64', lay, rng)
+        xs_l = [xs[i] for i in idx]          # the values in the order of the variable
+        g = {'id': 0, 'what': 'call', 'model': m, 'params': params, 'x': X}
+        pk = ['gauss', 'lorentz', 'pvoigt'][trial % 3]
+        pg = {'kind': pk, 'prefix': 'g_', 'ctor': 'g_', 'chain': []}
         gp = {'g_amplitude': var([1.5], [[uy, 1], [ux, 1]]), 'g_loc': var([0.25], [[ux, 1]]), 'g_scale': var([0.5], [[ux, 1]])}
+        if pk == 'pvoigt':
+            gp['g_fraction'] = var([0.375], [])
         comp = {'kind': 'comp', 'prefix': 'c.', 'via': 'add', 'ctor': '', 'chain': ['c.'], 'left': m, 'right': pg}
         cparams = {'c.' + k: v for k, v in {**params, **gp}.items()}
         q = rng.choice([x for x in PREFIXES if x != p])
@@ -608,38 +774,59 @@ def search(ctx, broken):
         miss = dict(params)
         del miss[f'{p}a{deg}']
         extra = dict(params, **{f'{p}a{deg + 1}': var([1.0], [[uy, 1], [ux, -deg - 1]])})
-        X = g['x']
-        rr = ctx.run_impl('c16_impl.py', {'groups': [
-            g, {'id': 1, 'what': 'call', 'model': pg, 'params': gp, 'x': X},
-            {'id': 2, 'what': 'call', 'model': comp, 'params': cparams, 'x': X},
-            {'id': 3, 'what': 'call', 'model': mq, 'params': qparams, 'x': X},
-            {'id': 4, 'what': 'call', 'model': m, 'params': miss, 'x': X},
-            {'id': 5, 'what': 'call', 'model': m, 'params': extra, 'x': X}]})['groups']
+        batch = [g, {'id': 1, 'what': 'call', 'model': pg, 'params': gp, 'x': X},
+                 {'id': 2, 'what': 'call', 'model': comp, 'params': cparams, 'x': X},
+                 {'id': 3, 'what': 'call', 'model': mq, 'params': qparams, 'x': X},
+                 {'id': 4, 'what': 'call', 'model': m, 'params': miss, 'x': X},
+                 {'id': 5, 'what': 'call', 'model': m, 'params': extra, 'x': X}]
+        # the peak and the composite once more, element by element as 0-d x
+        for xv in xs_l:
+            x0 = var([xv], [[ux, 1]], 'float64', None)
+            batch.append({'id': len(batch), 'what': 'call', 'model': pg, 'params': gp, 'x': x0})
+            batch.append({'id': len(batch), 'what': 'call', 'model': comp, 'params': cparams, 'x': x0})
+        rr = ctx.run_impl('c16_impl.py', {'groups': batch})['groups']
+        ltxt = LAYOUT_TEXT[lay]
         if any('result' not in rr[i] for i in (0, 1, 2, 3)):
             errs = [x.get('error') for x in rr[:4]]
-            bad = [g, {'id': 1, 'what': 'call', 'model': pg, 'params': gp, 'x': X},
-                   {'id': 2, 'what': 'call', 'model': comp, 'params': cparams, 'x': X},
-                   {'id': 3, 'what': 'call', 'model': mq, 'params': qparams, 'x': X}][[i for i, e in enumerate(errs) if e][0]]
-            viol('object-layer:raises', f'a valid polynomial / composite call raised {errs} (degree {deg}, coefficient i in unit(y)/unit(x)^i)',
-                 {'group': strip(bad), 'errors': errs})
+            bad = batch[[i for i, e in enumerate(errs) if e][0]]
+            viol('object-layer:raises', f'a valid polynomial / composite call raised {errs} (degree {deg}, coefficient i in unit(y)/unit(x)^i; {ltxt})',
+                 {'group': strip(bad), 'errors': errs, 'x_layout': lay})
             continue
-        for k, xv in enumerate(xs):
+        if any(rr[i]['result'].get('shape') != rr[i]['x']['shape'] for i in (0, 1, 2, 3)):
+            viol('object-layer:shape', f'the result of a polynomial / {pk} / composite call does not have the shape of x ({ltxt})',
+                 {'group': strip(batch[2]), 'x_layout': lay})
+            continue
+        for k, xv in enumerate(xs_l):
             exact = sum(Fraction(c) * Fraction(xv) ** i for i, c in enumerate(cs))
             if isinstance(rr[0]['result']['values'][k], str):
                 viol('poly:sum', f'polynomial of degree {deg} returns {rr[0]["result"]["values"][k]} at x = {xv}', {'group': g, 'x': xv})
                 break
             got = Fraction(*[int(t) for t in rr[0]['result']['values'][k]])
             if abs(got - exact) > Fraction(1, 10 ** 12) * sum(abs(Fraction(c) * Fraction(xv) ** i) for i, c in enumerate(cs)):
-                viol('poly:sum', f'polynomial of degree {deg} with coefficients a_i = {cs} returns {float(got)} at x = {xv}; sum a_i x^i = {float(exact)}',
-                     {'group': g, 'x': xv, 'impl': float(got), 'sum': float(exact)})
+                viol('poly:sum', f'polynomial of degree {deg} with coefficients a_i = {cs} returns {float(got)} at x = {xv} ({ltxt}); sum a_i x^i = {float(exact)}',
+                     {'group': g, 'x': xv, 'impl': float(got), 'sum': float(exact), 'x_layout': lay})
+                break
+            want = peak_value(pk, 1.5, 0.25, 0.5, 0.375, xv)
+            if not abs(_val(rr[1], k) - want) <= 1e-9 * abs(want) + 1e-300:
+                viol(f'{pk}:closed-form', f'{pk}(x={xv}) = {_val(rr[1], k)} as an element of a {ltxt}, but the definition gives {want} '
+                     f'(A=1.5, loc=0.25, scale=0.5' + (', fraction=0.375)' if pk == 'pvoigt' else ')'),
+                     {'group': strip(batch[1]), 'x': xv, 'impl': _val(rr[1], k), 'definition': want, 'x_layout': lay})
                 break
             parts = _val(rr[0], k) + _val(rr[1], k)
             if abs(_val(rr[2], k) - parts) > 1e-12 * (abs(_val(rr[0], k)) + abs(_val(rr[1], k))):
-                viol('composite:sum', f'composite returns {_val(rr[2], k)} but its parts sum to {parts}', {'group': comp, 'x': xv})
+                viol('composite:sum', f'composite returns {_val(rr[2], k)} at x = {xv} but its parts sum to {parts} ({ltxt})',
+                     {'group': strip(batch[2]), 'x': xv, 'x_layout': lay})
                 break
             if rr[3]['result']['values'][k] != rr[0]['result']['values'][k]:
                 viol('prefix:dependent', f'result depends on the prefix: {p!r} -> {_val(rr[0], k)}, {q!r} -> {_val(rr[3], k)}', {'group': g, 'other_prefix': q})
                 break
+            r_p, r_c = rr[6 + 2 * k], rr[7 + 2 * k]
+            if 'result' in r_p and 'result' in r_c and lay != '0d':
+                for nm, arr, alone, bg in ((pk, _val(rr[1], k), _val(r_p), batch[1]), ('composite', _val(rr[2], k), _val(r_c), batch[2])):
+                    if not abs(arr - alone) <= 1e-12 * abs(alone) + 1e-300:
+                        viol(f'{nm}:order-dependent', f'{nm}(x={xv}) = {arr} as an element of a {ltxt}, but {alone} when evaluated alone as a 0-d x',
+                             {'group': strip(bg), 'x': xv, 'in_array': arr, 'alone': alone, 'x_layout': lay})
+                        break
         for i, what in ((4, 'missing'), (5, 'unknown')):
             if rr[i].get('error') != 'ValueError':
                 viol(f'bad-params:{what}', f'a call with a {what} parameter is not refused with ValueError (got {rr[i].get("error") or "a value"})',
